@@ -65,8 +65,8 @@ impl Engine for C05 {
     fn rule(&self) -> String {
         "every library of the space is imported; for every note (and every missing name that some link resolves to) the set of (linking note, line of the linking block) reported by Graph::get_block_references_to + get_inline_references_to, by textDocument/references and the counts shown by textDocument/inlayHint must equal the set computed by the independent link scanner + resolver over all note texts (external urls excluded, .md ignored, resolution relative to the linking note's directory). non-trivial = the library contains at least one internal link that resolves to an existing note".into()
     }
-    fn bound(&self, tier: Tier) -> String {
-        lib_bound(tier)
+    fn bound(&self, _tier: Tier) -> String {
+        format!("both tiers: {}", lib_bound(Tier::Thorough))
     }
     fn assumptions(&self) -> Vec<String> {
         let mut a = lib_assumptions();
@@ -74,7 +74,9 @@ impl Engine for C05 {
         a
     }
     fn enumerate(&self, tier: Tier, emit: &mut dyn FnMut(&str)) {
-        libspace::enumerate(tier == Tier::Thorough, &[""], &mut |c| emit(&c.to_string()));
+        // the deep space runs in a few seconds, so both tiers use it
+        let _ = tier;
+        libspace::enumerate(true, &[""], &mut |c| emit(&c.to_string()));
     }
     fn features(&self, case: &str) -> Vec<String> {
         LibCase::parse(case).features()
@@ -207,7 +209,10 @@ impl Engine for C06 {
         "every library of the space is formatted (import/export of the library and the LSP formatting request for the owner note), for refs_extension \"\" and \".md\"; links of input and output are matched by ordinal position with the independent link scanner: same kind; destination resolves (own resolver, from the linking note's directory) to the same key, textual difference limited to the configured extension; text equals the plain text of the target's first heading iff the link is an ordinary link / block reference, internal, and the note it resolves to exists and starts with a heading, otherwise the text is unchanged. non-trivial = some link text was refreshed or had to stay".into()
     }
     fn bound(&self, tier: Tier) -> String {
-        lib_bound(tier)
+        match tier {
+            Tier::Quick => format!("refs_extension \"\": {}; refs_extension \".md\": {}", lib_bound(Tier::Thorough), lib_bound(Tier::Quick)),
+            Tier::Thorough => format!("both refs_extension settings: {}", lib_bound(Tier::Thorough)),
+        }
     }
     fn assumptions(&self) -> Vec<String> {
         let mut a = lib_assumptions();
@@ -215,7 +220,8 @@ impl Engine for C06 {
         a
     }
     fn enumerate(&self, tier: Tier, emit: &mut dyn FnMut(&str)) {
-        libspace::enumerate(tier == Tier::Thorough, &["", ".md"], &mut |c| emit(&c.to_string()));
+        libspace::enumerate(true, &[""], &mut |c| emit(&c.to_string()));
+        libspace::enumerate(tier == Tier::Thorough, &[".md"], &mut |c| emit(&c.to_string()));
     }
     fn features(&self, case: &str) -> Vec<String> {
         LibCase::parse(case).features()
